@@ -54,6 +54,10 @@ pub fn profile_name() -> &'static str {
     })
 }
 
+/// Tier of the current `explore run` (recorded in replay files so that the enumeration task that
+/// found a violation can be re-run).
+pub static RUN_TIER: std::sync::OnceLock<String> = std::sync::OnceLock::new();
+
 pub fn write_replay(dir: &str, prop: &str, armed: u32, v: &Violation) -> String {
     let mut kv: Vec<(String, String)> = vec![
         ("property".into(), json::s(prop)),
@@ -76,6 +80,17 @@ pub fn write_replay(dir: &str, prop: &str, armed: u32, v: &Violation) -> String 
         kv.push(("related_input_hex".into(), json::s(&hex(i))));
         kv.push(("related_input".into(), json::s(&printable(i))));
         kv.push(("related_observed".into(), json::s(o)));
+    }
+    if v.task.0 != u32::MAX {
+        kv.push(("tier".into(), json::s(RUN_TIER.get().map(|s| s.as_str()).unwrap_or("quick"))));
+        kv.push(("phase".into(), v.task.0.to_string()));
+        kv.push(("task".into(), v.task.1.to_string()));
+    }
+    // the calls this worker made just before: replayed first if the case does not reproduce alone
+    kv.push(("preceding_count".into(), v.preceding.len().to_string()));
+    for (i, (l, inp)) in v.preceding.iter().enumerate() {
+        kv.extend(lane_fields(&format!("preceding{i}_"), l));
+        kv.push((format!("preceding{i}_input_hex"), json::s(&hex(inp))));
     }
     let body = format!("{{{}}}", kv.iter().map(|(k, v)| format!("\"{}\":{}", k, v)).collect::<Vec<_>>().join(",\n "));
     let mut key = v.input.clone();
@@ -126,7 +141,7 @@ pub fn replay_file(path: &str) -> i32 {
     let lane = lane_from(&text, "").expect("lane");
     let input = json::unhex(&json::get_str(&text, "input_hex").expect("input_hex"));
     let journal = Arc::new(Journal::anonymous());
-    let caller = Caller::new(journal.slot(0), input.len() + 4096, (lane.cap as usize).max(64) + 64);
+    let caller = Caller::new(journal.slot(0), 2 * input.len() + 4 * 4096, (lane.cap as usize).max(64) + 64);
     let mut ck = Checker::new(&prop, armed, caller);
     ck.limit = 100;
     if !lane.backend.force() {
@@ -138,25 +153,62 @@ pub fn replay_file(path: &str) -> i32 {
     println!("  input    : {}", printable(&input));
     let mut m = Model::for_entry(lane.entry, lane.cfg, lane.cap);
     m.feed(&input);
-    match relation.as_str() {
-        "none" | "crash" => {
-            let (o, _) = ck.eval(&lane, &input, Some(&m), None);
-            println!("  observed : {}", describe_obs(&o));
-            println!("  model    : {}", describe_model(&m.out()));
+    if let Some(code) = evaluate(&mut ck, &text, &lane, &input, &m, &relation, true) {
+        return code;
+    }
+    if ck.nviol == 0 {
+        // not reproduced by the call alone: the subject may keep state between calls (a static, a
+        // thread-local, something keyed by the buffer address). Re-run the calls this worker made
+        // just before, in order, in this process, and then the case again.
+        let n = json::get_num(&text, "preceding_count").unwrap_or(0) as usize;
+        if n > 0 {
+            println!("  not reproduced by this call alone; replaying the {} calls that preceded it:", n);
+            for i in 0..n {
+                if let Some(l) = lane_from(&text, &format!("preceding{i}_")) {
+                    let inp = json::unhex(&json::get_str(&text, &format!("preceding{i}_input_hex")).unwrap_or_default());
+                    if i + 1 == n && inp == input && l.encode() == lane.encode() {
+                        // the recorded list ends with the failing call itself
+                        continue;
+                    }
+                    l.backend.force();
+                    let o = ck.caller.call(&l, &inp);
+                    println!("    {} on {} -> {}", l.describe(), printable(&inp), describe_obs(&o));
+                }
+            }
+            lane.backend.force();
+            if let Some(code) = evaluate(&mut ck, &text, &lane, &input, &m, &relation, false) {
+                return code;
+            }
+            if ck.nviol > 0 {
+                println!("  (reproduces only after the preceding calls: the outcome of a call depends on state that earlier calls left behind)");
+            }
         }
-        "prefix" => {
-            let pin = json::unhex(&json::get_str(&text, "related_input_hex").unwrap_or_default());
-            let p = ck.caller.call(&lane, &pin);
-            println!("  prefix   : {} -> {}", printable(&pin), describe_obs(&p));
-            let (o, _) = ck.eval(&lane, &input, Some(&m), Some((&p, pin.len())));
-            println!("  observed : {}", describe_obs(&o));
-        }
-        "backends" | "alignment" => {
-            return crate::s2::replay_agreement(&mut ck, &lane, &input, &relation);
-        }
-        tag => {
-            let spec = TreeSpec { lane, ctx: input.clone(), alphabet: vec![], depth: 0, extra: 0, companions: Companions::from_tag(tag) };
-            run_tree(&mut ck, &spec, None);
+    }
+    if ck.nviol == 0 {
+        // last resort: the whole enumeration task that found it, from its start, single-threaded,
+        // with a fresh caller (deterministic call order)
+        if let (Some(tier), Some(ph), Some(ta)) = (json::get_str(&text, "tier"), json::get_num(&text, "phase"), json::get_num(&text, "task")) {
+            println!("  still not reproduced; re-running enumeration task {}/{} of the {} plan of {} from its start:", ph, ta, tier, prop);
+            let what = json::get_str(&text, "what").unwrap_or_default();
+            let mut found = crate::run_task(&prop, &tier, ph as usize, ta as usize);
+            if !found.iter().any(|v| v.what == what) {
+                println!("  still not reproduced; re-running every task of phase {} in order on one caller (single-threaded):", ph);
+                found = crate::run_task(&prop, &tier, ph as usize, usize::MAX);
+            }
+            if !found.iter().any(|v| v.what == what) {
+                println!("  still not reproduced; re-running phases 0..={} of the plan in order on one caller (single-threaded, stops at the first violation):", ph);
+                found = crate::run_sequential(&prop, &tier, ph as usize);
+            }
+            let same: Vec<&Violation> = found.iter().filter(|v| v.what == what && v.input == input).collect();
+            let pick: Vec<&Violation> = if same.is_empty() { found.iter().filter(|v| v.what == what).collect() } else { same };
+            if let Some(v) = pick.first() {
+                println!("  (reproduces when the enumeration is re-run from its start: the outcome of a call depends on state that earlier calls left behind)");
+                println!("  VIOLATED : {}", v.what);
+                println!("    call    : {} on {}", v.lane.describe(), printable(&v.input));
+                println!("    observed: {}", v.observed);
+                println!("    expected: {}", v.expected);
+                return 1;
+            }
         }
     }
     if ck.nviol > 0 {
@@ -173,6 +225,38 @@ pub fn replay_file(path: &str) -> i32 {
         println!("  no armed oracle fails on this case");
         0
     }
+}
+
+fn evaluate(ck: &mut Checker, text: &str, lane: &Lane, input: &[u8], m: &Model, relation: &str, verbose: bool) -> Option<i32> {
+    let lane = *lane;
+    match relation {
+        "none" | "crash" => {
+            let (o, _) = ck.eval(&lane, input, Some(m), None);
+            if verbose {
+                println!("  observed : {}", describe_obs(&o));
+                println!("  model    : {}", describe_model(&m.out()));
+            }
+        }
+        "prefix" => {
+            let pin = json::unhex(&json::get_str(text, "related_input_hex").unwrap_or_default());
+            let p = ck.caller.call(&lane, &pin);
+            if verbose {
+                println!("  prefix   : {} -> {}", printable(&pin), describe_obs(&p));
+            }
+            let (o, _) = ck.eval(&lane, input, Some(m), Some((&p, pin.len())));
+            if verbose {
+                println!("  observed : {}", describe_obs(&o));
+            }
+        }
+        "backends" | "alignment" => {
+            return Some(crate::s2::replay_agreement(ck, &lane, input, relation));
+        }
+        tag => {
+            let spec = TreeSpec { lane, ctx: input.to_vec(), alphabet: vec![], depth: 0, extra: 0, companions: Companions::from_tag(tag) };
+            run_tree(ck, &spec, None);
+        }
+    }
+    None
 }
 
 /// After a crash or watchdog kill: every journal slot that was inside a call becomes a replay file
@@ -215,6 +299,8 @@ pub fn journal_to_replays(journal: &str, dir: &str, prop: &str) {
             expected: "Ok(Complete) / Ok(Partial) / Err".into(),
             related: None,
             relation: if is_scan { "scan-crash".into() } else { "crash".into() },
+            preceding: Vec::new(),
+            task: (u32::MAX, u32::MAX),
         };
         println!("{}", write_replay(dir, prop, 0, &v));
     }
